@@ -235,6 +235,9 @@ func applyOps(text string, ops []layOp) (string, bool) {
 			if op.Arg > len(lines) {
 				return "", false
 			}
+			if op.Arg < len(lines) && inStringLines(lines)[op.Arg] {
+				return "", false // inside a multi-line string literal a blank line is content, not layout
+			}
 			if op.Arg == len(lines) && len(lines) > 0 && !strings.HasSuffix(lines[len(lines)-1], "\n") {
 				lines[len(lines)-1] += "\n"
 			}
@@ -244,6 +247,9 @@ func applyOps(text string, ops []layOp) (string, bool) {
 		case "comment", "comment0", "commentE", "commentE0":
 			if op.Arg >= len(lines) {
 				return "", false
+			}
+			if inStringLines(lines)[op.Arg] {
+				return "", false // inside a multi-line string literal
 			}
 			l := lines[op.Arg]
 			pre := l[:len(l)-len(strings.TrimLeft(l, " \t"))]
